@@ -163,11 +163,42 @@ func concRound(db *redka.DB, cfg string, rnd *rand.Rand) {
 	if clients*per > 14 {
 		per = 14 / clients
 	}
-	plans := make([][]step, clients)
+	// an item is one operation, or a user transaction of 2..3 operations: DB.Update (the callback
+	// returns nil whatever the operations report, so it commits) or, for reads only, DB.View
+	type item struct {
+		steps []step
+		kind  string // "op" | "update" | "view"
+	}
+	readOp := func() step {
+		keys := []string{"k1", "k2", "k3"}[:nkeys]
+		k := keys[rnd.Intn(len(keys))]
+		switch rnd.Intn(3) {
+		case 0:
+			return opStrGet("n" + k)
+		case 1:
+			return opListRange("l"+k, 0, 50)
+		default:
+			return opListLen("l" + k)
+		}
+	}
+	plans := make([][]item, clients)
 	delays := make([][]time.Duration, clients)
 	for c := range plans {
 		for i := 0; i < per; i++ {
-			plans[c] = append(plans[c], concOps(rnd, nkeys))
+			it := item{kind: "op", steps: []step{concOps(rnd, nkeys)}}
+			switch rnd.Intn(6) {
+			case 0:
+				it = item{kind: "update"}
+				for j := 0; j < 2+rnd.Intn(2); j++ {
+					it.steps = append(it.steps, concOps(rnd, nkeys))
+				}
+			case 1:
+				it = item{kind: "view"}
+				for j := 0; j < 2+rnd.Intn(2); j++ {
+					it.steps = append(it.steps, readOp())
+				}
+			}
+			plans[c] = append(plans[c], it)
 			delays[c] = append(delays[c], time.Duration(rnd.Intn(300))*time.Microsecond)
 		}
 	}
@@ -180,16 +211,45 @@ func concRound(db *redka.DB, cfg string, rnd *rand.Rand) {
 		go func(c int) {
 			defer wg.Done()
 			e := &env{r: redis.RedkaDB(db), db: db}
-			for i, st := range plans[c] {
-				time.Sleep(delays[c][i])
-				t0 := time.Since(start).Nanoseconds()
-				res := st.run(e, ident)
-				t1 := time.Since(start).Nanoseconds()
-				text := st.text
+			oracle := func(text, res string) (string, string) {
 				if strings.HasPrefix(res, "ORACLE ") {
 					parts := strings.SplitN(res, " ", 3)
-					text, res = text+" "+parts[1], parts[2]
+					return text + " " + parts[1], parts[2]
 				}
+				return text, res
+			}
+			for i, it := range plans[c] {
+				time.Sleep(delays[c][i])
+				t0 := time.Since(start).Nanoseconds()
+				var text, res string
+				if it.kind == "op" {
+					res = it.steps[0].run(e, ident)
+					text, res = oracle(it.steps[0].text, res)
+				} else {
+					var parts []string
+					body := func(tx *redka.Tx) error {
+						parts = nil
+						et := &env{r: redis.RedkaTx(tx), db: db, inTx: true}
+						for _, st := range it.steps {
+							tx, rs := oracle(st.text, st.run(et, ident))
+							parts = append(parts, tx+" => "+rs)
+						}
+						return nil
+					}
+					var err error
+					if it.kind == "update" {
+						err = db.Update(body)
+					} else {
+						err = db.View(body)
+					}
+					if err != nil {
+						// the transaction itself failed (begin / commit): one failing event
+						text, res = it.steps[0].text, rErr(err)
+					} else {
+						text = fmt.Sprintf("B %d %s", len(parts), strings.Join(parts, " && "))
+					}
+				}
+				t1 := time.Since(start).Nanoseconds()
 				mu.Lock()
 				evs = append(evs, concEv{t0, t1, c, text, res})
 				mu.Unlock()
@@ -205,7 +265,11 @@ func concRound(db *redka.DB, cfg string, rnd *rand.Rand) {
 	sort.Slice(evs, func(i, j int) bool { return evs[i].call < evs[j].call })
 	var parts []string
 	for _, e := range evs {
-		parts = append(parts, fmt.Sprintf("%d %d %d %s => %s", e.call, e.ret, e.client, e.text, e.res))
+		if strings.HasPrefix(e.text, "B ") {
+			parts = append(parts, fmt.Sprintf("%d %d %d %s", e.call, e.ret, e.client, e.text))
+		} else {
+			parts = append(parts, fmt.Sprintf("%d %d %d %s => %s", e.call, e.ret, e.client, e.text, e.res))
+		}
 	}
 	seq++
 	fmt.Fprintf(out, "CONC %d %d %s | %s | %s | %s\n", seq, nowMs(), cfg, pre.render(ident), strings.Join(parts, " ;; "), post.render(ident))
